@@ -18,7 +18,7 @@ func init() {
 			"the hostile archives are produced by the reference writer; its agreement with gopar for benign names is checked in every run (a benign twin of the same archive must repair)",
 			"reads outside the tree are counted as a probe, not as a violation (the statement binds create/modify/delete)",
 		},
-		ProbesWant: []string{"hostile-name-rejected", "hostile-name-reached-write", "benign-twin-repaired", "create-outside-refused", "par1", "par2", "read-outside-tree"},
+		ProbesWant: []string{"hostile-name-rejected", "hostile-name-reached-write", "benign-twin-repaired", "create-outside-refused", "par1", "par2", "read-outside-tree", "par1-unsaved-hostile-entry"},
 	})
 }
 
@@ -127,13 +127,44 @@ func nameClass(n string) string {
 // buildHostile puts a reference-written archive with the given declared
 // names on the disk; every declared file is missing and fully
 // recoverable. It returns the index path.
+// buildHostile: shadow > 0 (PAR1 only) additionally declares entries that
+// are NOT saved in the parity set (status bit 0 clear) carrying the
+// hostile names and the size/hashes of the saved files, placed before
+// (1), after (2) or interleaved with (3) the saved entries, which then
+// carry benign names: a conformant PAR 1.0 index may list such entries.
 func buildHostile(d *simdisk.Mem, par1Set bool, names []string, contents [][]byte) string {
+	return buildHostileShadow(d, par1Set, names, contents, 0)
+}
+
+func buildHostileShadow(d *simdisk.Mem, par1Set bool, names []string, contents [][]byte, shadow int) string {
 	if par1Set {
 		var files []ref.Par1File
 		var datas [][]byte
 		for i, n := range names {
-			files = append(files, ref.Par1File{Name: n, Data: contents[i], Status: 1})
+			saved := ref.Par1File{Name: n, Data: contents[i], Status: 1}
+			if shadow > 0 {
+				saved.Name = fmt.Sprintf("saved%d.dat", i)
+			}
+			files = append(files, saved)
 			datas = append(datas, contents[i])
+		}
+		if shadow > 0 {
+			var unsaved []ref.Par1File
+			for i, n := range names {
+				unsaved = append(unsaved, ref.Par1File{Name: n, Data: contents[i], Status: 0})
+			}
+			switch shadow {
+			case 1:
+				files = append(unsaved, files...)
+			case 2:
+				files = append(files, unsaved...)
+			default:
+				var mixed []ref.Par1File
+				for i := range unsaved {
+					mixed = append(mixed, unsaved[i], files[i])
+				}
+				files = mixed
+			}
 		}
 		d.Put(c15Dir+"/set.par", ref.BuildPar1(files, 0, nil))
 		for v := 1; v <= len(names); v++ {
@@ -261,7 +292,18 @@ func containment(r *Run) {
 	}
 
 	d, canary := c15Disk()
-	index := buildHostile(d, par1Set, names, contents)
+	shadow := 0
+	if par1Set {
+		if r.SweepCase >= 0 {
+			shadow = r.SweepCase % 4
+		} else {
+			shadow = t.Pick([]int{3, 1, 1, 1}, "unsaved-shadow")
+		}
+		if shadow > 0 {
+			r.Probe("par1-unsaved-hostile-entry")
+		}
+	}
+	index := buildHostileShadow(d, par1Set, names, contents, shadow)
 	w := &World{Par1: par1Set, Disk: d, Dir: c15Dir, Base: "set", Index: index, S: 4}
 	r.Logf("hostile archive par1=%v names=%q", par1Set, names)
 	outcome := ""
@@ -288,6 +330,15 @@ func containment(r *Run) {
 			case 'W':
 				reached = true
 				if !inside {
+					// a write call that failed without any effect (e.g. the
+					// name ".." resolves to the parent directory itself and
+					// the write fails with EISDIR) creates, modifies and
+					// deletes nothing: the statement allows entries that
+					// "fail without side effects"
+					if a.Err != "" && a.Kept == 0 && a.Fault == 0 {
+						r.Probe("failed-write-attempt-outside")
+						continue
+					}
 					r.Violate("wrote-outside-root", "%s wrote %s (declared names %q), outside %s", res.Op, a.Resolved, names, c15Dir)
 				}
 			case 'R':
